@@ -198,7 +198,7 @@ theorem Conf.leave {r : Realm} (h : Conf P r) (k : SessKey) (mode : LeaveMode) :
     obtain ⟨hm, hk⟩ := find?_key hf
     have hPk : P s.key := h.1 s hm
     have h4 := (conf_leaveAnnounce (P := P) _ s ((leaveSend r k mode).takeTestaments k).1
-      (mode.isShutdown || mode.killAll)).mpr
+      mode.isShutdown).mpr
       ((conf_leaveRemove (P := P) _ k mode.isShutdown).mpr ((conf_takeTestaments _ k).mpr ((conf_leaveSend r k mode).mpr h)))
     revert h4
     generalize leaveAnnounce _ _ _ _ = r4
